@@ -228,20 +228,46 @@ func labelsSortedUnique(bl []*BlockI) bool {
 	return true
 }
 
+// iterPool: explicit iterator names come from a tiny pool, so that a nested
+// dynamic block often re-uses (shadows) the name of an enclosing one.
+var iterPool = []string{"it", "each", "x"}
+
+// IterName is the iterator name in force for a dynamic block.
+func (d *RDyn) IterName() string {
+	if d.Iterator != "" {
+		return d.Iterator
+	}
+	return d.Type
+}
+
 // dynRun builds the dynamic block for a run of blocks of one type.
 // parent: reference to the tuple that holds this run's data when nested
-// (nil at the outermost level, where for_each is a literal or a context variable).
-func (d *DynState) dynRun(t *rapid.T, bs *BlockS, bl []*BlockI, parent *RExpr) (*RDyn, []Val) {
+// (nil at the outermost level, where for_each is a literal or a context variable);
+// outer: iterator names of the enclosing dynamic blocks, innermost last.
+func (d *DynState) dynRun(t *rapid.T, bs *BlockS, bl []*BlockI, parent *RExpr, outer []string) (*RDyn, []Val) {
 	typ := bl[0].Type
 	dyn := &RDyn{Type: typ, Free: bs != nil && bs.Kind == "attrs"}
 	iter := typ
-	if rapid.Bool().Draw(t, "custom-iterator") {
-		d.n++
-		iter = fmt.Sprintf("it%d", d.n)
+	switch c := rapid.IntRange(0, 3).Draw(t, "custom-iterator"); {
+	case c == 3 && len(outer) > 0:
+		// deliberately the name of an enclosing iterator
+		iter = rapid.SampledFrom(outer).Draw(t, "outer-iterator")
+		if iter != typ {
+			dyn.Iterator = iter
+		}
+		d.bump("dyn:custom-iterator")
+	case c >= 2:
+		iter = rapid.SampledFrom(iterPool).Draw(t, "iterator")
 		dyn.Iterator = iter
 		d.bump("dyn:custom-iterator")
-	} else {
+	default:
 		d.bump("dyn:default-iterator")
+	}
+	for _, o := range outer {
+		if o == iter {
+			d.bump("dyn:iterator-shadows-enclosing")
+			break
+		}
 	}
 	ref := func(path ...string) RExpr {
 		return RExpr{Ref: iter, Path: append([]string{"value"}, path...), Interp: rapid.IntRange(0, 3).Draw(t, "interp") == 0}
@@ -332,7 +358,7 @@ func (d *DynState) dynRun(t *rapid.T, bs *BlockS, bl []*BlockI, parent *RExpr) (
 			if bs != nil {
 				ps = bs.Body
 			}
-			rb := d.BuildBody(t, ps, &sub, 40)
+			rb := d.buildBody(t, ps, &sub, 40, append(append([]string{}, outer...), iter))
 			dyn.Content.Items = append(dyn.Content.Items, rb.Items...)
 			d.bump("dyn:static-children")
 			continue
@@ -347,7 +373,7 @@ func (d *DynState) dynRun(t *rapid.T, bs *BlockS, bl []*BlockI, parent *RExpr) (
 		}
 		key := "kids_" + ct
 		pref := RExpr{Ref: iter, Path: []string{"value", key}}
-		kdyn, kdata := d.dynRun(t, cs, kids, &pref)
+		kdyn, kdata := d.dynRun(t, cs, kids, &pref, append(append([]string{}, outer...), iter))
 		// hoisting: an attribute that has one value per parent is stored once in the
 		// parent's data and read through the inherited (outer) iterator
 		for ci := range kdyn.Content.Items {
@@ -367,6 +393,10 @@ func (d *DynState) dynRun(t *rapid.T, bs *BlockS, bl []*BlockI, parent *RExpr) (
 				} else {
 					perParent[owner[j]] = v
 				}
+			}
+			if kdyn.IterName() == iter {
+				// the child's iterator shadows this one: the outer value is out of reach
+				continue
 			}
 			if !ok || len(kids) == 0 || !rapid.Bool().Draw(t, "hoist") {
 				continue
@@ -434,6 +464,10 @@ func dropKey(v Val, k string) Val {
 // BuildBody renders an instance body into a render tree, folding runs of blocks
 // of one type into dynamic blocks with probability pct/100 per run.
 func (d *DynState) BuildBody(t *rapid.T, s *BodyS, in *BodyI, pct int) RBody {
+	return d.buildBody(t, s, in, pct, nil)
+}
+
+func (d *DynState) buildBody(t *rapid.T, s *BodyS, in *BodyI, pct int, outer []string) RBody {
 	var b RBody
 	for _, a := range in.Attrs {
 		b.Items = append(b.Items, RItem{Attr: &RAttr{Name: a.Name, E: lit(a.V)}})
@@ -465,7 +499,7 @@ func (d *DynState) BuildBody(t *rapid.T, s *BodyS, in *BodyI, pct int) RBody {
 				if rapid.Bool().Draw(t, "maxrun") {
 					n = j - i
 				}
-				dyn, _ := d.dynRun(t, bs, bl[i:i+n], nil)
+				dyn, _ := d.dynRun(t, bs, bl[i:i+n], nil, outer)
 				b.Items = append(b.Items, RItem{Dyn: dyn})
 				d.bump(fmt.Sprintf("dyn:run=%d", min(n, 3)))
 				i += n
@@ -475,7 +509,7 @@ func (d *DynState) BuildBody(t *rapid.T, s *BodyS, in *BodyI, pct int) RBody {
 			if bs != nil {
 				cs = bs.Body
 			}
-			b.Items = append(b.Items, RItem{Block: &RBlock{Type: ty, Labels: bl[i].Labels, Body: d.BuildBody(t, cs, &bl[i].Body, pct), Free: bs != nil && bs.Kind == "attrs"}})
+			b.Items = append(b.Items, RItem{Block: &RBlock{Type: ty, Labels: bl[i].Labels, Body: d.buildBody(t, cs, &bl[i].Body, pct, outer), Free: bs != nil && bs.Kind == "attrs"}})
 			i++
 		}
 	}
